@@ -228,8 +228,12 @@ def run_config(rec, cfg, k, idx):
     import ncs.build as nb
     r = common.case_rng(rec.seed, ID, f"{idx}/{k}")
     wd = rec.tmpdir()
-    art = os.path.join(wd, f"art{idx}_{k}") + os.sep
-    os.makedirs(art)
+    # half of the configurations are built in ONE artifacts folder that is rebuilt in place (children of the same names
+    # with other content at the same paths), the others in a folder of their own
+    inplace = r.random() < 0.5
+    art = os.path.join(wd, "artifacts_rebuilt_in_place" if inplace else f"art{idx}_{k}") + os.sep
+    os.makedirs(art, exist_ok=True)
+    rec.count("artifacts-folder:" + ("rebuilt-in-place" if inplace else "own"))
     try:
         data = {"artifacts_folder": art}
         children = {}
@@ -319,7 +323,8 @@ def run_config(rec, cfg, k, idx):
         if want_seq is not None and seqn != want_seq:
             rec.count("diagnostic:sequence-number-differs-from-configured")   # not part of the property: no verdict
     finally:
-        shutil.rmtree(art, ignore_errors=True)
+        if not inplace:
+            shutil.rmtree(art, ignore_errors=True)
 
 
 def script_route(rec):
